@@ -66,3 +66,23 @@ def check_sendqueue(prop, tier, replay):
                                "worker (ablation refuted); the real Transport over the in-package NOOP connection (connect and send "
                                "failures on request, idle timeout lowered to 25 ms) is judged on what reaches the connection and on "
                                "bounded progress after the heal; wall-clock timing never decides a verdict"])
+
+
+def check_snapshotsend(prop, tier, replay):
+    n, tr, st = (6, 20, 30) if tier == "quick" else (16, 60, 40)
+    batches = [{"first": k * tr, "traces": tr, "steps": st} for k in range(n)]
+    return tv_run(prop, tier, replay, harness_dirs=["transport"], pkg="internal/transport", test="TestVerifTssim",
+                  trace_module="SnapshotSendTrace", tag="TS-REPORT", count_tag="TS-COUNT", batches=batches,
+                  cfg_extra="  Ablate = {}",
+                  env_of=_env, mc=[("MCSnapshotSend", "MC_SnapshotSend.cfg", 300, 4)], mc_deadlock=False,
+                  mc_expect_violation=[("MCSnapshotSend", "MC_SnapshotSend_abl_no_report_on_connect_failure.cfg", "Inv"),
+                                       ("MCSnapshotSend", "MC_SnapshotSend_abl_success_on_poison.cfg", "Inv")],
+                  level="model_checking", build_name="cksim", merge_into_existing=True, max_workers=8, panic_ok=True,
+                  what="sending side of a snapshot transfer: a request did not end in exactly one truthful report to raft, "
+                       "the producer of a stream was left hanging, or the snapshot's reference was not given back",
+                  sig_of=lambda op, f: "C17:snapshotsend:%s" % op,
+                  assumptions=["snapshot transfers as the sender sees them (internal/transport/snapshot.go, job.go) are decided by "
+                               "SnapshotSend.tla: MCSnapshotSend checks exactly-one / truthful report for every interleaving of "
+                               "producer, job and connection state (two ablations refuted); the real Transport over the in-package "
+                               "NOOP transport is driven with seeded faults (unknown target, refused connection, k-th chunk fails, "
+                               "producer gives up) for witness snapshots (file path) and streams"])
